@@ -349,8 +349,10 @@ class MessageQueue(Entity):
         msg = self._messages[message_id]
         msg.state = MessageState.ACKNOWLEDGED
 
-        # Remove from in-flight and messages
+        # Remove from in-flight, pending (late ack after a redelivery was requested) and messages
         self._in_flight.pop(message_id, None)
+        if message_id in self._pending_queue:
+            self._pending_queue.remove(message_id)
         self._messages.pop(message_id, None)
         self._redelivery_scheduled.discard(message_id)
 
@@ -370,8 +372,10 @@ class MessageQueue(Entity):
         msg.state = MessageState.REJECTED
         self._messages_rejected += 1
 
-        # Remove from in-flight
+        # Remove from in-flight and pending (late reject after a redelivery was requested)
         self._in_flight.pop(message_id, None)
+        if message_id in self._pending_queue:
+            self._pending_queue.remove(message_id)
 
         if requeue and msg.delivery_count < self._max_redeliveries:
             # Requeue for redelivery
